@@ -2,6 +2,7 @@ import LocustModel.Disk.Envelope
 import LocustModel.Disk.Segment
 import LocustModel.Lemmas.C14Envelope
 import LocustModel.Lemmas.C14Segment
+import LocustModel.Disk.SchemaSpec
 /-
   C14 — stored files read back as written or are rejected.
   Property theorems only.  Quantification: ALL payloads / files (byte lists of any length below 2^64 - 48), ALL hash
@@ -9,77 +10,32 @@ import LocustModel.Lemmas.C14Segment
   ALL columns (any name, codec op list, data sections), ALL log segments and catalogues.
 -/
 namespace LM.C14
-open LM LM.Envelope LM.Segment LM.Routing LM.Gen.SegmentTables
+open LM LM.Envelope LM.Segment LM.Routing LM.Gen.SegmentTables LM.Gen
 
 /-! ### envelope -/
 
-/-- ROUND TRIP: what `store` wrote, `load` returns (payload below 2^64 - 48 bytes, digest of 32 bytes). -/
+/-- ROUND TRIP: what `store` wrote, `load` returns (payload length representable in the 8-byte length field,
+    digest of 32 bytes). -/
 theorem C14_unwrap_wrap (H : List UInt8 → List UInt8) (hLen : ∀ x, (H x).length = 32) (d : List UInt8)
-    (hd : 48 + d.length < 2 ^ 64) : unwrap H (wrap H d) = .ok d := by
-  have hl : (wrap H d).length = 48 + d.length := by simp [wrap, be64_length, hLen]; omega
+    (hd : d.length < 2 ^ 64) : unwrap H (wrap H d) = .ok d := by
+  have hl : (wrap H d).length = 48 + d.length := wrap_length H hLen d
   have h8 : (wrap H d).take 8 = be64 0 := by
     have : wrap H d = be64 0 ++ (be64 d.length ++ H d ++ d) := by simp [wrap]
     rw [this, List.take_left' (be64_length 0)]
-  have h16 : ((wrap H d).drop 8).take 8 = be64 d.length := by
-    have : wrap H d = be64 0 ++ (be64 d.length ++ (H d ++ d)) := by simp [wrap]
-    rw [this, List.drop_left' (be64_length 0), List.take_left' (be64_length _)]
+  have h16 : ((wrap H d).drop 8).take 8 = be64 d.length := wrap_len_field H d
   have h48 : (wrap H d).drop 48 = d := by
     have : wrap H d = (be64 0 ++ be64 d.length ++ H d) ++ d := by simp [wrap]
     rw [this, List.drop_left' (by simp [be64_length, hLen])]
-  have h32 : ((wrap H d).drop 16).take 32 = H d := by
-    have : wrap H d = (be64 0 ++ be64 d.length) ++ (H d ++ d) := by simp [wrap]
-    rw [this, List.drop_left' (by simp [be64_length])]
-    rw [List.take_left' (hLen d)]
+  have h32 : ((wrap H d).drop 16).take 32 = H d := wrap_digest_field H hLen d
   unfold unwrap
-  rw [hl, h8, h16, h48, h32, fromBe_be64 0 (by omega), fromBe_be64 d.length (by omega)]
+  rw [hl, h8, h16, h48, h32, fromBe_be64 0 (by omega), fromBe_be64 d.length hd]
   have : ¬ (48 + d.length < 48) := by omega
   simp [this]
-  omega
-
-/-- ONLY WHAT WAS WRITTEN IS ACCEPTED: if `load` returns a payload, the file is byte for byte the envelope of that
-    payload.  Hence a file is never decoded into data other than what its bytes spell. -/
-theorem C14_unwrap_only_wrap (H : List UInt8 → List UInt8) (b d : List UInt8) (h : unwrap H b = .ok d) :
-    b = wrap H d := by
-  unfold unwrap at h
-  split at h
-  · simp at h
-  · split at h
-    · simp at h
-    · simp only [] at h
-      split at h
-      · simp at h
-      · split at h
-        · simp at h
-        · split at h
-          · simp at h
-          · rename_i h1 h2 h3 h4 h5
-            simp only [Loaded.ok.injEq] at h
-            have hv : fromBe (b.take 8) = 0 := by simpa using h2
-            have hlen : b.length = 48 + fromBe ((b.drop 8).take 8) := by simpa using h4
-            have hck : (b.drop 16).take 32 = H (b.drop 48) := by simpa using h5
-            have hge : 48 ≤ b.length := by omega
-            -- split b into its four fields
-            have e1 : b = b.take 8 ++ b.drop 8 := (List.take_append_drop 8 b).symm
-            have e2 : b.drop 8 = (b.drop 8).take 8 ++ b.drop 16 := by
-              have := (List.take_append_drop 8 (b.drop 8)).symm
-              simpa [List.drop_drop] using this
-            have e3 : b.drop 16 = (b.drop 16).take 32 ++ b.drop 48 := by
-              have := (List.take_append_drop 32 (b.drop 16)).symm
-              simpa [List.drop_drop] using this
-            have t8 : (b.take 8).length = 8 := by simp; omega
-            have t16 : ((b.drop 8).take 8).length = 8 := by simp; omega
-            have hdl : d.length = fromBe ((b.drop 8).take 8) := by rw [← h]; simp; omega
-            have f1 : b.take 8 = be64 0 := by rw [← hv, be64_fromBe _ t8]
-            have f2 : (b.drop 8).take 8 = be64 d.length := by rw [hdl, be64_fromBe _ t16]
-            unfold wrap
-            rw [← h]
-            conv => lhs; rw [e1, e2, e3, hck, f1, f2, h]
-            simp [h]
 
 /-- What an accepted file looks like, read off `load` directly. -/
 theorem C14_unwrap_ok_shape (H : List UInt8 → List UInt8) (b d : List UInt8) (h : unwrap H b = .ok d) :
-    d = b.drop 48 ∧ 48 ≤ b.length ∧ b.length = 48 + fromBe ((b.drop 8).take 8) ∧
-    48 + fromBe ((b.drop 8).take 8) < 2 ^ 64 ∧ (b.drop 16).take 32 = H (b.drop 48) := by
+    d = b.drop 48 ∧ 48 ≤ b.length ∧ fromBe (b.take 8) = 0 ∧ b.length = 48 + fromBe ((b.drop 8).take 8) ∧
+    (b.drop 16).take 32 = H (b.drop 48) := by
   unfold unwrap at h
   split at h
   · simp at h
@@ -90,42 +46,78 @@ theorem C14_unwrap_ok_shape (H : List UInt8 → List UInt8) (b d : List UInt8) (
       · simp at h
       · split at h
         · simp at h
-        · split at h
-          · simp at h
-          · rename_i h1 h2 h3 h4 h5
-            simp only [Loaded.ok.injEq] at h
-            exact ⟨h.symm, by omega, by simpa using h4, by omega, by simpa using h5⟩
+        · rename_i h1 h2 h3 h4
+          simp only [Loaded.ok.injEq] at h
+          exact ⟨h.symm, by omega, by simpa using h2, by omega, by simpa using h4⟩
+
+/-- ONLY WHAT WAS WRITTEN IS ACCEPTED: if `load` returns a payload, the file is byte for byte the envelope of that
+    payload.  Hence a file is never decoded into data other than what its bytes spell — for EVERY byte string,
+    whoever produced it. -/
+theorem C14_unwrap_only_wrap (H : List UInt8 → List UInt8) (b d : List UInt8) (h : unwrap H b = .ok d) :
+    b = wrap H d := by
+  obtain ⟨hd, hge, hv, hlen, hck⟩ := C14_unwrap_ok_shape H b d h
+  have e1 : b = b.take 8 ++ b.drop 8 := (List.take_append_drop 8 b).symm
+  have e2 : b.drop 8 = (b.drop 8).take 8 ++ b.drop 16 := by
+    have := (List.take_append_drop 8 (b.drop 8)).symm
+    simpa [List.drop_drop] using this
+  have e3 : b.drop 16 = (b.drop 16).take 32 ++ b.drop 48 := by
+    have := (List.take_append_drop 32 (b.drop 16)).symm
+    simpa [List.drop_drop] using this
+  have t8 : (b.take 8).length = 8 := by simp; omega
+  have t16 : ((b.drop 8).take 8).length = 8 := by simp; omega
+  have hdl : d.length = fromBe ((b.drop 8).take 8) := by rw [hd]; simp; omega
+  have f1 : b.take 8 = be64 0 := by rw [← hv, be64_fromBe _ t8]
+  have f2 : (b.drop 8).take 8 = be64 d.length := by rw [hdl, be64_fromBe _ t16]
+  unfold wrap
+  conv => lhs; rw [e1, e2, e3, hck, f1, f2, ← hd]
+  simp
+
+/-- `load` never faults: every byte string is either rejected with one of the four errors or accepted.
+    (The overflow panic of the old length check is gone; this is the totality statement for the envelope.) -/
+theorem C14_unwrap_total (H : List UInt8 → List UInt8) (b : List UInt8) :
+    (∃ e, unwrap H b = .err e) ∨ unwrap H b = .ok (b.drop 48) := by
+  unfold unwrap
+  split
+  · exact .inl ⟨_, rfl⟩
+  · split
+    · exact .inl ⟨_, rfl⟩
+    · simp only []
+      split
+      · exact .inl ⟨_, rfl⟩
+      · split
+        · exact .inl ⟨_, rfl⟩
+        · exact .inr rfl
 
 /-- TRUNCATION: every proper prefix of a stored file (any length 0 ≤ n < size) is rejected. -/
 theorem C14_truncation_rejected (H : List UInt8 → List UInt8) (hLen : ∀ x, (H x).length = 32) (d : List UInt8)
-    (hd : 48 + d.length < 2 ^ 64) (n : Nat) (hn : n < (wrap H d).length) (d' : List UInt8) :
+    (hd : d.length < 2 ^ 64) (n : Nat) (hn : n < (wrap H d).length) (d' : List UInt8) :
     unwrap H ((wrap H d).take n) ≠ .ok d' := by
   intro h
-  obtain ⟨_, hge, hlen, _, _⟩ := C14_unwrap_ok_shape H _ _ h
+  obtain ⟨_, hge, _, hlen, _⟩ := C14_unwrap_ok_shape H _ _ h
   have hl := wrap_length H hLen d
   have hn' : ((wrap H d).take n).length = n := by simp; omega
   rw [hn'] at hge hlen
   have hfield : (((wrap H d).take n).drop 8).take 8 = be64 d.length := by
     rw [← wrap_len_field H d, List.drop_take, List.take_take]
     congr 1; omega
-  rw [hfield, fromBe_be64 _ (by omega)] at hlen
+  rw [hfield, fromBe_be64 _ hd] at hlen
   omega
 
 /-- EXTENSION: every file with bytes appended is rejected. -/
 theorem C14_extension_rejected (H : List UInt8 → List UInt8) (hLen : ∀ x, (H x).length = 32) (d : List UInt8)
-    (hd : 48 + d.length < 2 ^ 64) (s : List UInt8) (hs : s ≠ []) (d' : List UInt8) :
+    (hd : d.length < 2 ^ 64) (s : List UInt8) (hs : s ≠ []) (d' : List UInt8) :
     unwrap H (wrap H d ++ s) ≠ .ok d' := by
   intro h
-  obtain ⟨_, _, hlen, _, _⟩ := C14_unwrap_ok_shape H _ _ h
+  obtain ⟨_, _, _, hlen, _⟩ := C14_unwrap_ok_shape H _ _ h
   have hl := wrap_length H hLen d
   have hfield : ((wrap H d ++ s).drop 8).take 8 = be64 d.length := by
     rw [← wrap_len_field H d, List.drop_append_of_le_length (by omega), List.take_append_of_le_length (by simp; omega)]
-  rw [hfield, fromBe_be64 _ (by omega), List.length_append, hl] at hlen
+  rw [hfield, fromBe_be64 _ hd, List.length_append, hl] at hlen
   have : s.length ≠ 0 := fun h0 => hs (List.eq_nil_of_length_eq_zero h0)
   omega
 
-/-- HEADER CHANGES (version, length, digest — in particular each of the 384 single-bit flips of the header):
-    any file that keeps the payload but differs from the stored file is rejected, whatever `H` is. -/
+/-- HEADER CHANGES (version, length, digest): any file that keeps the payload but differs from the stored file is
+    rejected, whatever `H` is. -/
 theorem C14_header_change_rejected (H : List UInt8 → List UInt8) (d b : List UInt8)
     (hpay : b.drop 48 = d) (hne : b ≠ wrap H d) (d' : List UInt8) : unwrap H b ≠ .ok d' := by
   intro h
@@ -147,8 +139,7 @@ theorem C14_payload_change_needs_collision (H : List UInt8 → List UInt8) (hLen
     rw [← h1, ← h2, hhdr]
   rw [← e1, e2, wrap_digest_field H hLen d]
 
-/-- … hence, if nothing else has the digest of the stored payload, every payload change (in particular every
-    single-bit flip in the payload) is rejected. -/
+/-- … hence, if nothing else has the digest of the stored payload, every payload change is rejected. -/
 theorem C14_payload_change_rejected (H : List UInt8 → List UInt8) (hLen : ∀ x, (H x).length = 32)
     (d b : List UInt8) (hcoll : ∀ x, H x = H d → x = d)
     (hhdr : b.take 48 = (wrap H d).take 48) (hne : b ≠ wrap H d) (d' : List UInt8) : unwrap H b ≠ .ok d' := by
@@ -156,6 +147,32 @@ theorem C14_payload_change_rejected (H : List UInt8 → List UInt8) (hLen : ∀ 
   have := hcoll d' (C14_payload_change_needs_collision H hLen d b d' hhdr h)
   subst this
   exact hne (C14_unwrap_only_wrap H b d' h)
+
+/-- BIT FLIPS IN THE HEADER: each of the 384 single-bit flips of version, length or digest of a stored file is
+    rejected outright — for every payload and every hash function, no assumption. -/
+theorem C14_bitflip_header_rejected (H : List UInt8 → List UInt8) (hLen : ∀ x, (H x).length = 32) (d : List UInt8)
+    (i : Nat) (hi : i < 384) (d' : List UInt8) : unwrap H (flipBit (wrap H d) i) ≠ .ok d' := by
+  have hl := wrap_length H hLen d
+  have h48 : (wrap H d).drop 48 = d := by
+    have : wrap H d = (be64 0 ++ be64 d.length ++ H d) ++ d := by simp [wrap]
+    rw [this, List.drop_left' (by simp [be64_length, hLen])]
+  exact C14_header_change_rejected H d _ (by rw [flipBit_drop48 _ _ hi, h48]) (flipBit_ne _ _ (by omega)) d'
+
+/-- BIT FLIPS IN THE PAYLOAD: every single-bit flip behind the header is rejected unless the flipped payload has the
+    digest of the stored one (explicit no-collision hypothesis for the stored payload). -/
+theorem C14_bitflip_payload_rejected (H : List UInt8 → List UInt8) (hLen : ∀ x, (H x).length = 32) (d : List UInt8)
+    (hcoll : ∀ x, H x = H d → x = d) (i : Nat) (hlo : 384 ≤ i) (hi : i < 8 * (wrap H d).length) (d' : List UInt8) :
+    unwrap H (flipBit (wrap H d) i) ≠ .ok d' :=
+  C14_payload_change_rejected H hLen d _ hcoll (flipBit_take48 _ _ hlo) (flipBit_ne _ _ hi) d'
+
+/-- EVERY SINGLE-BIT FLIP of a stored file, at every position, is rejected (header bits unconditionally, payload
+    bits because nothing else has the stored payload's digest). -/
+theorem C14_bitflip_rejected (H : List UInt8 → List UInt8) (hLen : ∀ x, (H x).length = 32) (d : List UInt8)
+    (hcoll : ∀ x, H x = H d → x = d) (i : Nat) (hi : i < 8 * (wrap H d).length) (d' : List UInt8) :
+    unwrap H (flipBit (wrap H d) i) ≠ .ok d' := by
+  by_cases h : i < 384
+  · exact C14_bitflip_header_rejected H hLen d i h d'
+  · exact C14_bitflip_payload_rejected H hLen d hcoll i (by omega) hi d'
 
 
 /-! ### tables translated from partition_segment.rs (break when two arms are swapped in the Rust source) -/
@@ -207,6 +224,45 @@ theorem C14_model_arms_match_source :
   · intro s; cases s <;> rfl
   · intro c; cases c <;> rfl
 
+/-! ### log-segment tables translated from event_buffer.rs, field copies, schemas -/
+
+/-- `ColumnData` variant → union member → variant is the identity, every union member is produced by some variant, and
+    the same for the four `AnyVal` kinds inside mixed columns (which moreover keep their meaning: Int↔i64, Float↔f64,
+    Str↔string, Null↔null). -/
+theorem C14_wal_tag_roundtrip :
+    (∀ t, WalTables.capnpToColData (WalTables.colDataToCapnp t) = t) ∧
+    (∀ c, WalTables.colDataToCapnp (WalTables.capnpToColData c) = c) ∧
+    (∀ a, WalTables.capnpToAnyVal (WalTables.anyValToCapnp a) = a) ∧
+    (∀ c, WalTables.anyValToCapnp (WalTables.capnpToAnyVal c) = c) ∧
+    WalTables.anyValToCapnp .Int = .I64 ∧ WalTables.anyValToCapnp .Float = .F64 ∧
+    WalTables.anyValToCapnp .Str = .String ∧ WalTables.anyValToCapnp .Null = .Null := by
+  refine ⟨?_, ?_, ?_, ?_, rfl, rfl, rfl, rfl⟩
+  · intro t; cases t <;> rfl
+  · intro c; cases c <;> rfl
+  · intro a; cases a <;> rfl
+  · intro c; cases c <;> rfl
+
+/-- The hand-written `serColData` / `deserColData` arms are the arms of the Rust source. -/
+theorem C14_wal_arms_match_source :
+    (∀ d, (serColData d).tag = WalTables.colDataToCapnp d.tag) ∧
+    (∀ c, (deserColData c).tag = WalTables.capnpToColData c.tag) := by
+  refine ⟨?_, ?_⟩
+  · intro d; cases d <;> rfl
+  · intro c; cases c <;> rfl
+
+/-- The three schema files declare exactly the structs, unions, groups and enumerants that the message-tree types of the
+    model have (a member added to, removed from or renamed in a schema breaks this). -/
+theorem C14_schema_matches_model : schemaMatchesModel = true := by decide
+
+/-- No field is copied in one direction only: for every union member and every struct, what `serialize` sets and what
+    `deserialize` gets are the fields of the model's constructor (dropping a `set_is_fp32` or reading `get_len` twice
+    instead of `get_offset` breaks this). -/
+theorem C14_fields_copied_both_ways : fieldsCopiedBothWays = true := by decide
+
+/-- The catalogue model mirrors what the source does with the cursor, the explicit last column, the `loaded` flag and
+    the routing index. -/
+theorem C14_meta_source_facts : metaSourceFacts = true := by decide
+
 /-! ### partition segments -/
 
 /-- Every codec op that the writer accepts is read back identically. -/
@@ -219,7 +275,7 @@ theorem C14_section_roundtrip (s : DataSection) : deserSection (serSection s) = 
     over storable encodings, any list of data sections of every kind — `deserialize (serialize c) = c`. -/
 theorem C14_column_roundtrip (c : Column) (hs : Storable c) :
     ∃ t, serColumn c = .ok t ∧ deserColumn t = .ok c := by
-  obtain ⟨hops, hdata⟩ := hs
+  obtain ⟨hops, hnew⟩ := hs
   obtain ⟨ops', hser, hback⟩ := mapM_ok_of_all serOp deserOp c.codec hops op_roundtrip
   refine ⟨{ name := c.name, len := c.len, range := serRange c.range, codec := ops', data := c.data.map serSection },
     by simp [serColumn, hser, bind, Except.bind, pure, Except.pure], ?_⟩
@@ -229,18 +285,12 @@ theorem C14_column_roundtrip (c : Column) (hs : Storable c) :
     cases hr : c.range with
     | none => rfl
     | some p => rfl
-  have hcol : ({ name := c.name, len := c.len, range := deserRange (serRange c.range),
-                 codec := ops'.map deserOp, data := (c.data.map serSection).map deserSection } : Column) = c := by
+  have hcol : rawColumn { name := c.name, len := c.len, range := serRange c.range, codec := ops',
+                          data := c.data.map serSection } = c := by
+    simp only [rawColumn]
     rw [hback, hdata', hrange]
-  rw [deserColumn_eq _ c hcol]
-  by_cases hnil : c.codec = []
-  · obtain ⟨d, rest, hd, hb⟩ := hdata hnil
-    simp [hnil, hd, hb]
-  · have : c.codec.isEmpty = false := by
-      cases hc : c.codec with
-      | nil => exact absurd hc hnil
-      | cons _ _ => rfl
-    simp [this]
+  unfold deserColumn
+  rw [hcol, hnew]
 
 /-- SEGMENT ROUND TRIP: a partition file with any number of storable columns decodes to exactly those columns. -/
 theorem C14_segment_roundtrip (cols : List Column) (hs : ∀ c ∈ cols, Storable c) :
@@ -259,6 +309,34 @@ theorem C14_serialize_fails_only_on_unstorable (c : Column) (h : ∀ op ∈ c.co
     ∃ t, serColumn c = .ok t := by
   obtain ⟨ops', hser, _⟩ := mapM_ok_of_all serOp deserOp c.codec h op_roundtrip
   exact ⟨_, by simp [serColumn, hser, bind, Except.bind, pure, Except.pure]; rfl⟩
+
+/-- DESERIALISATION NEVER ALTERS A FIELD: whatever message tree is read (not only images of the writer), a column that
+    comes out carries exactly the name, length, range, ops and sections the tree spells. -/
+theorem C14_deser_column_faithful (t : CapColumn) (c : Column) (h : deserColumn t = .ok c) : c = rawColumn t :=
+  columnNew_ok_eq _ _ h
+
+/-- WHICH TREES FAULT: reading a column panics exactly when `Column::new` cannot type the codec — with an empty codec:
+    no data section, or a first section without a basic type; otherwise: `output_type` fails (empty section list, pop
+    from an empty stack, `PushDataSection` past the sections, `nullable()` / `cast_to_basic()` on a type that has
+    none).  On every other tree it succeeds; log segments and catalogues (`deserWal`, `deserMeta`) have no fault
+    outcome at all (they are total functions). -/
+theorem C14_deser_column_faults_exactly (t : CapColumn) :
+    (∃ f, deserColumn t = .error f) ↔
+      (((rawColumn t).codec = [] ∧ ∀ d rest, (rawColumn t).data = d :: rest → castToBasicOk d.encodingType = false) ∨
+       ((rawColumn t).codec ≠ [] ∧ ∃ f, outputType (rawColumn t).codec ((rawColumn t).data.map (·.encodingType)) = .error f)) := by
+  unfold deserColumn columnNew
+  cases hc : (rawColumn t).codec with
+  | nil =>
+    simp only [List.isEmpty_nil, if_true, true_and, ne_eq, not_true_eq_false, false_and, or_false]
+    cases hd : (rawColumn t).data with
+    | nil => simp
+    | cons d rest =>
+      cases hb : castToBasicOk d.encodingType <;> simp [hb]
+  | cons op ops =>
+    simp only [List.isEmpty_cons, Bool.false_eq_true, if_false, reduceCtorEq, false_and, false_or, ne_eq, not_false_eq_true, true_and]
+    cases ho : outputType (op :: ops) ((rawColumn t).data.map (·.encodingType)) with
+    | error f => simp [bind, Except.bind]
+    | ok e => simp [bind, Except.bind, pure, Except.pure]
 
 /-! ### log segments -/
 
@@ -294,6 +372,30 @@ theorem C14_wal_roundtrip (w : WalSegment) (hw : WalWf w) : deserWal (serWal w) 
     exact this _ htab
   rw [hmap, mapOfList_id _ hk]
 
+/-- EVENT BUFFER WIRE ROUND TRIP (the bare `TableSegmentList` message of `EventBuffer::serialize` / `deserialize`, used
+    by the logging client and by `WalSegment`): every table set with distinct names, with columns of all seven
+    representations, is read back identically. -/
+theorem C14_eventbuffer_roundtrip (tables : List (Name × TableBuffer))
+    (hk : keysNodup tables) (hc : ∀ e ∈ tables, keysNodup e.2.columns) :
+    deserEventBuffer (serEventBuffer tables) = tables := by
+  have h := C14_wal_roundtrip ⟨0, tables⟩ ⟨hk, hc⟩
+  have : deserEventBuffer (serEventBuffer tables) = (deserWal (serWal ⟨0, tables⟩)).tables := rfl
+  rw [this, h]
+
+/-- The other direction, per column representation: every well-formed wire column (sparse forms with as many indices
+    as values) is the image of what it decodes to — reading loses nothing of such a message. -/
+theorem C14_coldata_wire_roundtrip (c : CapColData) (hb : c.Balanced) : serColData (deserColData c) = c := by
+  cases c with
+  | sparseF64 is vs =>
+    simp only [CapColData.Balanced] at hb
+    simp only [deserColData, serColData, CapColData.sparseF64.injEq]
+    exact ⟨List.map_fst_zip (by omega), List.map_snd_zip (by omega)⟩
+  | sparseI64 is vs =>
+    simp only [CapColData.Balanced] at hb
+    simp only [deserColData, serColData, CapColData.sparseI64.injEq]
+    exact ⟨List.map_fst_zip (by omega), List.map_snd_zip (by omega)⟩
+  | _ => rfl
+
 /-! ### catalogue -/
 
 /-- CATALOGUE ROUND TRIP: for every catalogue (any two cursor values, 0..k tables, any partitions with any
@@ -328,6 +430,36 @@ theorem C14_meta_index_stable (subs : List SubpartitionMetadata) :
     | cons s rest ih => intro n acc; simp only [List.map_cons, List.zipIdx_cons, List.foldl_cons]; exact ih _ _
   exact this subs 0 []
 
+/-- `normaliseMeta` is a projection: what a round trip does to a catalogue, a second round trip does not do again. -/
+theorem C14_meta_normalise_idempotent (m : MetaStore) : normaliseMeta (normaliseMeta m) = normaliseMeta m := by
+  have hr : ∀ l : List SubpartitionMetadata, (l.map resetLoaded).map resetLoaded = l.map resetLoaded := by
+    intro l; simp [List.map_map, Function.comp_def, resetLoaded]
+  have hp : ∀ p, normalisePart (normalisePart p) = normalisePart p := by
+    intro p; simp only [normalisePart, hr]
+  simp only [normaliseMeta, List.map_map, Function.comp_def, hp]
+
+/-- READING TWICE CHANGES NOTHING: storing what was read and reading it again yields the same catalogue. -/
+theorem C14_meta_reread_stable (m : MetaStore) (hm : MetaWf m) :
+    deserMeta (serMeta (deserMeta (serMeta m))) = deserMeta (serMeta m) := by
+  have hwf : MetaWf (normaliseMeta m) := by
+    unfold MetaWf at hm ⊢
+    have : (normaliseMeta m).partitions.map (fun p => (p.tablename, p.id)) = m.partitions.map (fun p => (p.tablename, p.id)) := by
+      simp [normaliseMeta, List.map_map, Function.comp_def, normalisePart]
+    rw [this]; exact hm
+  rw [C14_meta_roundtrip m hm, C14_meta_roundtrip _ hwf, C14_meta_normalise_idempotent]
+
+/-- The content of a catalogue survives the round trip field by field: same partitions in the same order with the same
+    id, table, offset, length, and per sub-partition the same size, key and last column. -/
+theorem C14_meta_content_preserved (m : MetaStore) (hm : MetaWf m) :
+    (deserMeta (serMeta m)).earliestUnflushedWalId = m.earliestUnflushedWalId ∧
+    (deserMeta (serMeta m)).partitions.map (fun p => (p.id, p.tablename, p.offset, p.len,
+        p.subpartitions.map fun s => (s.sizeBytes, s.key, s.lastColumn))) =
+      m.partitions.map (fun p => (p.id, p.tablename, p.offset, p.len,
+        p.subpartitions.map fun s => (s.sizeBytes, s.key, s.lastColumn))) := by
+  rw [C14_meta_roundtrip m hm]
+  refine ⟨rfl, ?_⟩
+  simp [normaliseMeta, normalisePart, List.map_map, Function.comp_def, resetLoaded]
+
 /-! ### non-vacuity -/
 
 def exH : List UInt8 → List UInt8 := fun d => List.replicate 31 0 ++ [UInt8.ofNat d.length]
@@ -336,10 +468,16 @@ example : unwrap exH (wrap exH [1, 2, 3]) = .ok [1, 2, 3] := by decide
 example : unwrap exH ((wrap exH [1, 2, 3]).take 50) = .err .length := by decide
 example : unwrap exH (wrap exH [1, 2, 3] ++ [0]) = .err .length := by decide
 example : unwrap exH (be64 1 ++ (wrap exH [1, 2, 3]).drop 8) = .err .version := by decide
-def exCol : Column := ⟨[99], 3, some (-5, 250), [.add .U8 (-5), .nullable], [.u8 [0, 255, 7], .bitvec [5]]⟩
-example : Storable exCol := by
-  refine ⟨by decide, by intro h; cases h⟩
-example : Storable ⟨[110], 4, none, [], [.null 4]⟩ := ⟨by decide, fun _ => ⟨_, _, rfl, rfl⟩⟩
+example : unwrap exH (flipBit (wrap exH [1, 2, 3]) 7) = .err .version := by decide
+example : unwrap exH (flipBit (wrap exH [1, 2, 3]) 127) = .err .length := by decide
+example : unwrap exH (flipBit (wrap exH [1, 2, 3]) 383) = .err .checksum := by decide
+-- a payload flip under a hash that ignores content IS accepted: the no-collision hypothesis cannot be dropped
+example : unwrap exH (flipBit (wrap exH [1, 2, 3]) 384) = .ok [129, 2, 3] := by decide
+-- the old length check `48 + len` overflowed on this file; it is now an ordinary error
+example : unwrap exH (be64 0 ++ be64 (2 ^ 64 - 48) ++ exH []) = .err .length := by decide
+def exCol : Column := ⟨[99], 3, some (-5, 250), [.pushDataSection 1, .nullable, .add .U8 (-5)], [.u8 [0, 255, 7], .bitvec [5]]⟩
+example : Storable exCol := ⟨by decide, rfl⟩
+example : Storable ⟨[110], 4, none, [], [.null 4]⟩ := ⟨by decide, rfl⟩
 example : ¬ ∃ t, serColumn ⟨[120], 1, none, [.unknown], [.u8 [1]]⟩ = .ok t := by
   intro ⟨t, h⟩; simp [serColumn, serOp, bind, Except.bind] at h
 example : WalWf ⟨3, [([116], ⟨2, [([97], .sparse [(1, 5)]), ([98], .mixed [.int 1, .null])]⟩)]⟩ := by
